@@ -187,7 +187,7 @@ func (g *seqGen) schemaStep() {
 		}
 		var cand []ColDesc
 		for _, d := range c.Cols {
-			if d.Kind != "key" {
+			if d.Kind != "key" && d.Name != "expire" {
 				cand = append(cand, d)
 			}
 		}
